@@ -284,6 +284,16 @@ def _table(rows, width, start_index, fill_mode, fill_value=-999, pad_front=False
             sl = slice(width - len(r), width) if pad_front else slice(0, len(r))
             arr[k, sl] = numpy.array(r, dtype=float) + si
         return arr, attrs
+    if fill_mode == 'uint_fill':
+        # unsigned indexes with the netCDF default fill of the type in a _FillValue attribute (a netCDF-4 file opened without mask_and_scale,
+        # or a dataset built in memory)
+        fv = numpy.uint32(4294967295)
+        arr = numpy.full((n, width), fv, dtype='uint32')
+        for k, r in enumerate(rows):
+            sl = slice(width - len(r), width) if pad_front else slice(0, len(r))
+            arr[k, sl] = numpy.array(r, dtype='uint32') + si
+        attrs['_FillValue'] = fv
+        return arr, attrs
     if fill_mode == 'int_fill' or ragged:
         arr = numpy.full((n, width), fill_value, dtype='int32')
         for k, r in enumerate(rows):
@@ -298,8 +308,9 @@ def _table(rows, width, start_index, fill_mode, fill_value=-999, pad_front=False
 def ugrid(ny=2, nx=3, *, split=(), merge=(), start_index=0, fill='auto', transposed=False,
           tables=(), edge_dimension='auto', edge_values=True, coords_as='vars', face_coords=False, time=2, extra=True,
           jitter=0.0, two_name='Two', face_dimension_attr=True, edge_transposed=False, mesh=None, edge_order='first-seen', depth=0,
-          edge_face_missing_first=False, latitude_first=False, edge_coords=False):
-    """tables: subset of {'edge_node','face_edge','edge_face','face_face'} to supply.
+          edge_face_missing_first=False, latitude_first=False, edge_coords=False, decoded_fill=-999):
+    """decoded_fill: with fill='nan' (tables as xarray decodes them) the _FillValue the file used, remembered in the encoding.
+    tables: subset of {'edge_node','face_edge','edge_face','face_face'} to supply.
     fill: 'auto' (int with _FillValue when ragged, none otherwise) | 'nan' | 'int_fill'."""
     node_x, node_y, faces = mesh if mesh is not None else quad_tri_mesh(ny, nx, split=split, merge=merge, jitter=jitter)
     edge_list, face_edges, edge_faces, face_faces = mesh_tables(faces)
@@ -309,7 +320,7 @@ def ugrid(ny=2, nx=3, *, split=(), merge=(), start_index=0, fill='auto', transpo
         face_edges = [[ne - 1 - e for e in fe] for fe in face_edges]
     nface, nnode, nedge = len(faces), len(node_x), len(edge_list)
     maxn = max(len(f) for f in faces)
-    fmode = {'auto': 'none', 'nan': 'nan', 'int_fill': 'int_fill'}[fill]
+    fmode = {'auto': 'none', 'nan': 'nan', 'int_fill': 'int_fill', 'uint_fill': 'uint_fill'}[fill]
     mesh_attrs = {'cf_role': 'mesh_topology', 'topology_dimension': 2, 'node_coordinates': 'Mesh2_node_x Mesh2_node_y',
                   'face_node_connectivity': 'Mesh2_face_nodes'}
     if face_dimension_attr:
@@ -329,7 +340,7 @@ def ugrid(ny=2, nx=3, *, split=(), merge=(), start_index=0, fill='auto', transpo
         data_vars[name] = xarray.DataArray(arr, dims=dims, attrs=attrs)
         if fmode == 'nan':
             # what xarray hands over after decoding an integer table with a _FillValue: float data, the file's type and fill in .encoding
-            data_vars[name].encoding.update({'dtype': numpy.dtype('int32'), '_FillValue': numpy.int32(-999)})
+            data_vars[name].encoding.update({'dtype': numpy.dtype('int32'), '_FillValue': numpy.int32(decoded_fill)})
     put('Mesh2_face_nodes', faces, maxn, 'nMesh2_face', 'nMaxMesh2_face_nodes', 'face_node_connectivity', transposed)
     has_edge_dim = bool({'edge_node', 'edge_face'} & set(tables)) or edge_dimension is True
     if edge_dimension is True or (edge_dimension == 'auto' and has_edge_dim):
